@@ -468,11 +468,13 @@ func (e *Env) stepHook(s *simrt.Sim) bool {
 				}
 			case "clock-jump":
 				e.noteWall()
+				e.wallSteps = append(e.wallSteps, wallStep{At: s.Elapsed(), Before: time.Now().Add(s.WallOffset())})
 				s.SetWallOffset(s.WallOffset() + time.Duration(f.Ms)*time.Millisecond)
 				e.fault("clock-jump")
 				e.logf("step %d: wall clock stepped by %dms", s.Steps(), f.Ms)
 			case "clock-back":
 				e.noteWall()
+				e.wallSteps = append(e.wallSteps, wallStep{At: s.Elapsed(), Before: time.Now().Add(s.WallOffset())})
 				s.SetWallOffset(s.WallOffset() - time.Duration(f.Ms)*time.Millisecond)
 				e.fault("clock-back")
 				e.logf("step %d: wall clock stepped back by %dms", s.Steps(), f.Ms)
